@@ -312,9 +312,25 @@ def req_data(case):
     return data
 
 
+STYLES = ("data", "kwargs", "mixed", "override")
+
+
 def impl_req(case):
+    """the fields reach the frame as a data dict, as keyword arguments, split between the two, or as keyword
+    arguments OVER a template dict that holds other values for the same keys (the keyword wins)"""
     code = REQS[case["name"]][0]
-    return fi.frame_class(code)(recipient=fi.addr(69), data=req_data(case))
+    cls = fi.frame_class(code)
+    data = req_data(case)
+    style = case.get("style", "data")
+    keys = sorted(data)
+    if style == "data" or not keys:
+        return cls(recipient=fi.addr(69), data=data)
+    if style == "kwargs":
+        return cls(recipient=fi.addr(69), **data)
+    if style == "mixed":
+        return cls(recipient=fi.addr(69), data={k: data[k] for k in keys[::2]}, **{k: data[k] for k in keys[1::2]})
+    stale = {k: ((v + 1) % 256 if isinstance(v, int) and not isinstance(v, bool) else v) for k, v in data.items()}
+    return cls(recipient=fi.addr(69), data=stale, **{k: data[k] for k in keys})
 
 
 def dotted(b):
@@ -747,6 +763,11 @@ def run(ctx):
     cases.extend(gen_reqs(rng, tier, fi.PINNED_SCHEDULES))
     cases.extend(gen_net(rng, tier))
     cases.extend(gen_ver(rng, tier))
+    k = 0
+    for c in cases:
+        if c["t"] == "req":
+            c["style"] = STYLES[k % 7 % 4] if k % 7 < 4 else "data"
+            k += 1
     cases.extend(gen_defaults())
     cases.extend(gen_resp(rng, tier))
     if ctx.get("max_cases"):
